@@ -49,6 +49,11 @@ CHECKS['C18'] = dict(text='Kani proof harnesses over the crate built with hashab
                   'inequality of different variants, equality of cloned payloads, the documented float semantics, and that equal values feed identical byte streams to a recording Hasher (hence equal hashes for every Hasher); likewise for ValueTuple.',
              note=TRUST_K + 'ordered-float is compiled and checked as real code. Outside: JSON key order, arrays, pgvector (other features / external crates).',
              technique='bounded model checking of the compiled code with Kani/CBMC (SAT) over kani::any() inputs', ref='6/C18', engine=ENGINE_K)
+CHECKS['C06'] = dict(text='Bounded symbolic execution of the real condition machinery (Condition::add / add_option / not / to_simple_expr, ConditionHolder::add_condition, cond_where / and_where / cond_having / and_having, join conditions, CASE WHEN) and of the renderer: '
+                  'the engine explores every call history (<= 2 calls quick, <= 3 thorough) and every any/all tree (depth <= 2, width <= 2..3, negated or not, empty groups, add_option(None) members) on SELECT WHERE/HAVING, UPDATE, DELETE, JOIN ON and CASE; '
+                  'for every shape z3 proves that the re-parsed rendered predicate is equivalent under SQL three-valued logic to the AND of the supplied conditions for all TRUE/FALSE/NULL assignments of the atoms, and that no predicate is rendered when no condition was given.',
+             note=TRUST_M + 'Oracle: Kleene evaluation (two solver Booleans per atom) of the specification and of the predicate read back by props/sqlparse.py. The #[doc(hidden)] and_or_where chain API is outside the property.',
+             technique='symbolic execution of rustc MIR (shape forking) + one z3 validity query per shape over three-valued atom assignments', ref='6/C06', engine=ENGINE_M)
 NA = {}
 def load_props():
     return [json.loads(l) for l in open(os.path.join(V, 'properties.jsonl'))]
